@@ -41,14 +41,14 @@ Proof. exact sx_tables_ok. Qed.
 Print Assumptions C14_printer_tables_ok.
 
 (* an operand is parenthesised exactly when its level is looser than the position accepts *)
-Theorem C14_printer_paren_decision : forall names lit_str e a,
-  sx_print names lit_str e a = paren_if (N.ltb a (sx_level e)) (sx_print names lit_str e L_Cond).
+Theorem C14_printer_paren_decision : forall names e a,
+  sx_print names e a = paren_if (N.ltb a (sx_level e)) (sx_print names e L_Cond).
 Proof. exact sx_paren_decision. Qed.
 Print Assumptions C14_printer_paren_decision.
 
 (* a text piece of mixed text followed by the `{{` of a binding: no binding start is created before
    that `{{`, whatever the text (in particular when it ends in `{`) *)
-Theorem C14_text_piece_then_binding : forall s, has_double_lbrace (text_piece false s ++ [123%N]) = false.
+Theorem C14_text_piece_then_binding : forall s, has_double_lbrace (text_piece true s ++ [123%N]) = false.
 Proof. exact text_piece_then_binding. Qed.
 Print Assumptions C14_text_piece_then_binding.
 
@@ -61,3 +61,11 @@ Theorem C14_static_text_roundtrip_real_scanner : forall named,
   forall s, decode_text named (escape_html_body s) = s.
 Proof. exact decode_escape_html_body. Qed.
 Print Assumptions C14_static_text_roundtrip_real_scanner.
+
+(* ---- string literals of re-printed expressions: written by the stringifier's own escaper and read
+   back by the expression parser's scanner (Model/WxStr.v, both tied to the implementation) ---- *)
+From GE Require Import Model.WxStr Proofs.WxStrProofs.
+Theorem C14_expression_string_literal_roundtrip : forall s rest,
+  wx_str_decode 34 (tl (wx_lit_str s) ++ rest) = Some (s, rest).
+Proof. exact wx_lit_str_roundtrip. Qed.
+Print Assumptions C14_expression_string_literal_roundtrip.
